@@ -53,6 +53,13 @@ def plan(tier, seed):
     for n in range(3, nl + 1):
         for pi, par in enumerate(E2.parent_vectors(n)):
             tasks.append(("lenient-centres", ("lenient", n, pi)))
+    scopes.append({"name": "centre-with-three-ring-bonds", "n": "5..6", "r": 3, "tags": ["[C@]", "[C@@]"],
+                   "desc": "every shape in which some atom carries three ring bonds (openings and/or closures), that atom tagged, "
+                           "every order of its ring digits; all forms of a task are encoded in one process one after the other",
+                   "table": RELAXED})
+    for n in (5, 6):
+        for pi, par in enumerate(E2.parent_vectors(n)):
+            tasks.append(("centre-with-three-ring-bonds", ("three", n, pi)))
     scopes.append({"name": "acyclic-centres", "n_max": 6, "desc": "no rings: every position, 4 tags (no inversion expected)",
                    "table": "default"})
     tasks.append(("acyclic-centres", ("acyc", 6)))
@@ -154,6 +161,26 @@ def run(task):
                                 at[i], at[j] = ti, tj
                                 smi = E2.write(n, par, rings, at, bt, scheme=sc, digit_perm=dp)
                                 last = (smi, check(smi, RELAXED, r))
+    elif kind == "three":
+        _, n, pi = arg
+        par = list(E2.parent_vectors(n))[pi]
+        bt = [""] * n
+        for rings in E2.ring_sets(n, par, 3, 3):
+            cnt = {}
+            for a, b in rings:
+                cnt[a] = cnt.get(a, 0) + 1
+                cnt[b] = cnt.get(b, 0) + 1
+            centres = [i for i, c in cnt.items() if c >= 3]
+            if not centres:
+                continue
+            r.states += 1
+            for dp in E2.digit_orders(rings):
+                for i in centres:
+                    for tag in ("[C@]", "[C@@]"):
+                        at = ["C"] * n
+                        at[i] = tag
+                        smi = E2.write(n, par, rings, at, bt, digit_perm=dp)
+                        last = (smi, check(smi, RELAXED, r))
     elif kind == "lenient":
         _, n, pi = arg
         par = list(E2.parent_vectors(n))[pi]
